@@ -181,9 +181,9 @@ StepsFull == { Step(ax, t, p) : ax \in UsedAxes, t \in Tests, p \in Preds }
 StepsOfAxis(ax) == { Step(ax, t, p) : t \in Tests, p \in Preds }
 StepsBare == { Step(ax, t, <<>>) : ax \in UsedAxes, t \in Tests }
 \* first steps of multi-step paths
-LeadQuick == { <<Dos, Ch("b")>>, <<Dos, Step("child", TypeT("node"), <<>>)>> }
+LeadQuick == { <<Dos, Step("child", TypeT("node"), <<>>)>> }
 Lead == IF Tier # "thorough" THEN LeadQuick
-        ELSE LeadQuick \cup { <<Dos, AtS("x")>> } \cup
+        ELSE LeadQuick \cup { <<Dos, Ch("b")>>, <<Dos, AtS("x")>> } \cup
         { <<Ch("a")>>, <<Dos, Step("child", AnyT, <<>>)>>, <<Ch("a"), Ch("b")>>, <<Dos, Ch("c")>>,
           <<Ch("a"), Step("child", TypeT("node"), <<NumL(2)>>)>>, <<Dos, Step("child", TypeT("text"), <<>>)>>,
           <<Dos, Step("child", TypeT("comment"), <<>>)>>, <<Dos, Step("child", AnyT, <<NumL(1)>>), Up>> }
@@ -232,7 +232,7 @@ Families == IF Tier = "tiny" THEN {"p1", "un", "fl"}
             ELSE {"p1", "p2", "un", "fl", "cmp", "fn", "ctx", "ns", "kw", "ar", "ar3"}
 
 \* the quick tier uses fewer documents for the operand-pool families
-DocsFor(f) == IF Tier = "quick" /\ f = "cmp" THEN {1, 2, 6}
+DocsFor(f) == IF Tier = "quick" /\ f = "cmp" THEN {2, 6}
               ELSE IF Tier = "quick" /\ f \in {"un", "fl"} THEN {1, 2, 4, 6}
               ELSE MainDocs
 Seeds ==
